@@ -38,6 +38,71 @@ Definition as_list (v : value) : option (list value) :=
 Definition sum_ints (l : list value) : option Z :=
   ofold (fun acc v => obind (as_int v) (fun z => Some (acc + z)%Z)) l 0%Z.
 
+Definition strict_ints (l : list value) : option (list Z) :=
+  omap (fun v => match v with VInt z => Some z | _ => None end) l.
+
+(* func_adl's Max/Min convention: the maximum/minimum of the sequence with 0 added *)
+Definition max0 (l : list value) : option Z := option_map (fun zs => fold_left Z.max zs 0%Z) (strict_ints l).
+Definition min0 (l : list value) : option Z := option_map (fun zs => fold_left Z.min zs 0%Z) (strict_ints l).
+
+(* [and]/[or]: left to right, returning the deciding operand *)
+Definition boolop_sem (o : boolop) (ev : expr -> option value) : list expr -> option value :=
+  fix go (es : list expr) : option value :=
+    match es with
+    | [] => None
+    | x :: rest =>
+        match rest with
+        | [] => ev x
+        | _ => obind (ev x) (fun v =>
+                 match o with
+                 | And => if truthy v then go rest else Some v
+                 | Or => if truthy v then Some v else go rest
+                 end)
+        end
+    end.
+
+(* chained comparison [a < b <= c ...] with short circuit *)
+Definition compare_sem (ev : expr -> option value) : value -> list cmpop -> list expr -> option value :=
+  fix chain (prev : value) (cops : list cmpop) (rs : list expr) {struct rs} : option value :=
+    match cops, rs with
+    | [], [] => Some (VBool true)
+    | o :: cops', r :: rs' =>
+        obind (ev r) (fun rv =>
+          obind (compare1 o prev rv) (fun b =>
+            if b then chain rv cops' rs' else Some (VBool false)))
+    | _, _ => None
+    end.
+
+(* the [if] clauses of a comprehension, left to right with short circuit *)
+Definition conds_sem (ev : expr -> option value) : list expr -> option bool :=
+  fix conds (ifs : list expr) : option bool :=
+    match ifs with
+    | [] => Some true
+    | c :: ifs' => obind (ev c) (fun cv => if truthy cv then conds ifs' else Some false)
+    end.
+
+(* an operator argument, seen through an evaluator [ev] *)
+Definition mk_view (ev : env -> expr -> option value) (E : env) (a : expr) : aview :=
+  {| av_val := ev E a;
+     av_f1 := match a with
+              | Lambda [x] b => Some (fun v => ev ((x, v) :: E) b)
+              | _ => None
+              end;
+     av_f2 := match a with
+              | Lambda [x; y] b => Some (fun v w => ev ((y, w) :: (x, v) :: E) b)
+              | _ => None
+              end |}.
+
+(* single-[for] comprehension: iterable in the outer scope, target local, [if]s left to right *)
+Definition comp_sem (ev : env -> expr -> option value) (E : env) (elt : expr) (gs : list expr) : option value :=
+  match gs with
+  | [CompFor (Name x) it ifs false] =>
+      obind (ev E it) (fun s => obind (as_list s) (fun l =>
+        obind (ofilter (fun v => conds_sem (ev ((x, v) :: E)) ifs) l) (fun kept =>
+          option_map VList (omap (fun v => ev ((x, v) :: E) elt) kept))))
+  | _ => None
+  end.
+
 Section Sem.
   Variable B : backend.
   Variable ops : list string.     (* names that are operators in method form (C17's list) *)
@@ -77,6 +142,16 @@ Section Sem.
     else if String.eqb op "Sum" then
       match args with
       | [] => obind recv (fun s => obind (as_list s) (fun l => option_map VInt (sum_ints l)))
+      | _ => None
+      end
+    else if String.eqb op "Max" then
+      match args with
+      | [] => obind recv (fun s => obind (as_list s) (fun l => option_map VInt (max0 l)))
+      | _ => None
+      end
+    else if String.eqb op "Min" then
+      match args with
+      | [] => obind recv (fun s => obind (as_list s) (fun l => option_map VInt (min0 l)))
       | _ => None
       end
     else if String.eqb op "Aggregate" then
@@ -119,18 +194,6 @@ Section Sem.
     | _, _ => None
     end.
 
-  Notation VIEW eval E :=
-    (fun a : expr =>
-       {| av_val := eval E a;
-          av_f1 := match a with
-                   | Lambda [x] b => Some (fun v => eval ((x, v) :: E) b)
-                   | _ => None
-                   end;
-          av_f2 := match a with
-                   | Lambda [x; y] b => Some (fun v w => eval ((y, w) :: (x, v) :: E) b)
-                   | _ => None
-                   end |}).
-
   Fixpoint eval (E : env) (e : expr) {struct e} : option value :=
     match e with
     | Name x => lookup x E
@@ -147,15 +210,15 @@ Section Sem.
             match f with
             | Name op =>
                 match args with
-                | s :: rest => apply_op op (eval E s) (map (VIEW eval E) rest)
+                | s :: rest => apply_op op (eval E s) (map (mk_view eval E) rest)
                 | [] => fun_sem B op [] []
                 end
             | Attr s m =>
-                if is_op m then apply_op m (eval E s) (map (VIEW eval E) args)
+                if is_op m then apply_op m (eval E s) (map (mk_view eval E) args)
                 else obind (eval E s) (fun r => obind (omap (eval E) args) (fun vs => meth_sem B r m vs []))
             | Lambda ps b =>
                 obind (omap (eval E) args) (fun vs =>
-                  obind (bind_args ps vs []) (fun E' => eval (E' ++ E)%list b))
+                  obind (bind_args ps vs []) (fun E' => eval (E' ++ E) b))
             | _ => None
             end
         | _ =>
@@ -165,38 +228,15 @@ Section Sem.
                   match f with
                   | Name fn => fun_sem B fn vs kws
                   | Attr s m => obind (eval E s) (fun r => meth_sem B r m vs kws)
-                  | Lambda ps b => obind (bind_args ps vs kws) (fun E' => eval (E' ++ E)%list b)
+                  | Lambda ps b => obind (bind_args ps vs kws) (fun E' => eval (E' ++ E) b)
                   | _ => None
                   end)))
         end
     | Lambda _ _ => None
     | UnaryOp o x => obind (eval E x) (unary o)
     | BinOp o l r => obind (eval E l) (fun a => obind (eval E r) (fun b => arith o a b))
-    | BoolOp o es =>
-        (fix go (es : list expr) : option value :=
-           match es with
-           | [] => None
-           | x :: rest =>
-               match rest with
-               | [] => eval E x
-               | _ => obind (eval E x) (fun v =>
-                        match o with
-                        | And => if truthy v then go rest else Some v
-                        | Or => if truthy v then Some v else go rest
-                        end)
-               end
-           end) es
-    | Compare l cops rs =>
-        obind (eval E l) (fun lv =>
-          (fix chain (prev : value) (cops : list cmpop) (rs : list expr) {struct rs} : option value :=
-             match cops, rs with
-             | [], [] => Some (VBool true)
-             | o :: cops', r :: rs' =>
-                 obind (eval E r) (fun rv =>
-                   obind (compare1 o prev rv) (fun b =>
-                     if b then chain rv cops' rs' else Some (VBool false)))
-             | _, _ => None
-             end) lv cops rs)
+    | BoolOp o es => boolop_sem o (eval E) es
+    | Compare l cops rs => obind (eval E l) (fun lv => compare_sem (eval E) lv cops rs)
     | IfExp c t f => obind (eval E c) (fun cv => if truthy cv then eval E t else eval E f)
     | Tuple es => option_map VTuple (omap (eval E) es)
     | List es => option_map VList (omap (eval E) es)
@@ -205,23 +245,12 @@ Section Sem.
           obind (omap (eval E) ks) (fun kvs => obind (omap (eval E) vs) (fun vvs => Some (VDict kvs vvs)))
         else None
     | Subscript v s => obind (eval E v) (fun a => obind (eval E s) (fun i => subscript a i))
-    | ListComp elt gs | GenExp elt gs =>
-        match gs with
-        | [CompFor (Name x) it ifs false] =>
-            obind (eval E it) (fun s => obind (as_list s) (fun l =>
-              obind (ofilter (fun v =>
-                       (fix conds (ifs : list expr) : option bool :=
-                          match ifs with
-                          | [] => Some true
-                          | c :: ifs' => obind (eval ((x, v) :: E) c) (fun cv =>
-                                           if truthy cv then conds ifs' else Some false)
-                          end) ifs) l) (fun kept =>
-                option_map VList (omap (fun v => eval ((x, v) :: E) elt) kept))))
-        | _ => None
-        end
+    | ListComp elt gs | GenExp elt gs => comp_sem eval E elt gs
     | CompFor _ _ _ _ => None
     | Raw _ => None
     | Other _ _ _ => None
     end.
+
+  Definition view (E : env) : expr -> aview := mk_view eval E.
 
 End Sem.
